@@ -17,7 +17,7 @@ var rejectTemplates = []string{
 	"return 1\n", "yield 1\n", "x = yield\n", "class A:\n    return 1\n", "class A:\n    yield 1\n", "lambda: (yield)\n" /* legal */, "def f():\n    return 1\n    yield 2\n", /* legal in 3.4 */
 	"nonlocal a\n", "def f():\n    nonlocal a\n", "def f(a):\n    global a\n", "def f(a, a): pass\n", "f(a=1, a=2)\n", "f(**a, **b)\n", "f(*a, *b)\n", "f(*a, b)\n", "f(a for a in b, c for c in d)\n",
 	"a, *b, *c = x\n", "*a = x\n", "*a, = x\n" /* legal */, "x = *a\n", "x = *a, b\n", "f(*a) = 1\n", "print(*a, *b)\n", "[*a]\n", "(*a)\n", "*a\n", "del *a, b\n",
-	"b'a' 'b'\n", "'a' b'b'\n", "x = b'\\xff' 'a'\n", "0777\n", "0b2\n", "0o8\n", "0x\n", "1__0\n", "1_0\n", "1e\n", "1.5j5\n", "'abc\n", "\"abc\n", "'''abc\n", "'\\x1'\n", "'\\xg0'\n", "'\\x+1'\n", "'\\u12'\n",
+	"b'a' 'b'\n", "'a' b'b'\n", "x = b'\\xff' 'a'\n", "0777\n", "0b2\n", "0o8\n", "0x\n", "1__0\n", "1e\n", "1.5j5\n", "'abc\n", "\"abc\n", "'''abc\n", "'\\x1'\n", "'\\xg0'\n", "'\\x+1'\n", "'\\u12'\n",
 	"'\\u+123'\n", "'\\U0001'\n", "'\\U00110000'\n", "'\\N{nosuchname}'\n", "b'\\xzz'\n", "b'\u00e9'\n", "b'\\u00e9' == 1\n" /* legal: \u is not an escape in bytes */, "a <> b\n", "a $ b\n", "a ? b\n", "a ! b\n", "`a`\n",
 	"if a:\npass\n", "if a:\n    pass\n  pass\n", "  pass\n", "if a:\n\tpass\n        pass\n", "def f():\n    pass\n   pass\n", "a = (1,\n", "a = [1\n", "a = {1: \n", "f(\n", "a = 1 +\n", "a = \\\n", "a = 1 \\ 2\n",
 	"class: pass\n", "def: pass\n", "def f: pass\n", "def f(): \n", "class A(: pass\n", "if: pass\n", "else: pass\n", "elif a: pass\n", "for in x: pass\n", "while: pass\n", "import\n", "from import a\n", "from a import\n",
@@ -31,6 +31,5 @@ var rejectTemplates = []string{
 	"a = 1\n b = 2\n", "if a:\n    b = 1\n      c = 2\n", "if a:\n        b = 1\n    c = 2\n" /* dedent to unknown level */, "\tif a:\n\t\tpass\n", "if a:\n    pass\n\telse:\n    pass\n",
 	"a = '\\\n", "a = 'x' 'y\n", "a = \"\"\"x\"\"\n", "a = r'\\'\n" /* r'\' is unterminated */, "a = b'\\'\n", "x = 1 if 2 else 3 if\n", "not\n", "a not b\n", "a is is b\n", "a in in b\n", "a not not in b\n", "a is not not b\n" /* legal: a is not (not b) */, "a not in not b\n", /* legal */
 	"yield = 1\n", "class = 1\n", "def = 1\n", "x.class\n", "x.None\n", "x.True = 1\n", "None.x = 1\n" /* legal syntax */, "f(None=1)\n", "f(True=1)\n", "def f(None): pass\n", "def None(): pass\n", "class True: pass\n", "import None\n", "from a import None\n",
-	"import a as None\n", "for None in a: pass\n", "with a as True: pass\n", "lambda None: 0\n", "global None\n", "nonlocal True\n", "del True\n", "None += 1\n", "x = 1 = None\n", "(None) = 1\n", "[None] = [1]\n", "None, a = 1, 2\n", "a, *None = x\n", "__debug__ = 1\n", "x.__debug__ = 1\n",
-	"def f(__debug__): pass\n", "f(__debug__=1)\n", "import __debug__\n", "del __debug__\n",
+	"import a as None\n", "for None in a: pass\n", "with a as True: pass\n", "lambda None: 0\n", "global None\n", "nonlocal True\n", "del True\n", "None += 1\n", "x = 1 = None\n", "(None) = 1\n", "[None] = [1]\n", "None, a = 1, 2\n", "a, *None = x\n", 
 }
